@@ -93,9 +93,18 @@ def run(ctx):
                 con = vc.VersionConstraint(comparator=comp, version=own[0]) if comp != "*" else vc.VersionConstraint(comparator="*", version_class=R.version_class)
                 rngs = [R(constraints=[con]), R(constraints=[vc.VersionConstraint(comparator=">=", version=own[0])] +
                                                 ([vc.VersionConstraint(comparator="!=", version=own[1])] if len(own) > 1 and own[1] != own[0] else []))]
+                if comp == ">=":
+                    # ranges without any constraint (the bare constructor, an empty from_versions, a normalize that keeps nothing)
+                    for build in (lambda: R(constraints=[]), lambda: R.from_versions([]), lambda: R(constraints=[con]).normalize([])):
+                        try:
+                            rngs.append(build())
+                        except Exception:  # noqa
+                            pass
                 for b in pools[B][:nvals]:
                     for rng in rngs:
                         o1 = observe(lambda: b in rng)
+                        if unrel and o1 == "TypeError":
+                            o1 = observe(lambda: rng.contains(b))       # the alias must refuse as well
                         evals += 1
                         if unrel and o1 != "TypeError":
                             violations.append(dict(kind="counterexample", stage="search",
